@@ -33,9 +33,9 @@ func (f *OutFile) Write(p []byte) (int, error) {
 	defer f.mu.Unlock()
 	return f.buf.Write(p)
 }
-func (f *OutFile) Read(p []byte) (int, error)   { return 0, fmt.Errorf("not readable") }
-func (f *OutFile) Close() error                 { return nil }
-func (f *OutFile) Stat() (fs.FileInfo, error)   { return nil, fmt.Errorf("no stat") }
+func (f *OutFile) Read(p []byte) (int, error) { return 0, fmt.Errorf("not readable") }
+func (f *OutFile) Close() error               { return nil }
+func (f *OutFile) Stat() (fs.FileInfo, error) { return nil, fmt.Errorf("no stat") }
 func (f *OutFile) String() string {
 	f.mu.Lock()
 	defer f.mu.Unlock()
@@ -46,17 +46,17 @@ func (f *OutFile) String() string {
 type Opts struct {
 	Globals     map[string]any // extra host globals
 	GlobalNames []string       // top-level variable names whose final values are wanted
-	Timeout     time.Duration  // default 20 s (watchdog; a timeout is reported as Err "timeout")
+	Timeout     time.Duration  // default 8 s (watchdog; a timeout is reported as Err "timeout")
 	Concurrency bool
 }
 
 // Result of a real run.
 type Result struct {
 	gen.Outcome
-	Stage    string `json:"stage,omitempty"`     // parse | compile | run: where it failed
-	ErrText  string `json:"err_text,omitempty"`  // the full real error text
-	GoPanic  string `json:"go_panic,omitempty"`  // a Go panic that escaped the embedding API (recovered by the harness)
-	FinalSP  int    `json:"final_sp"`            // VerifSP after the run (hook)
+	Stage   string `json:"stage,omitempty"`    // parse | compile | run: where it failed
+	ErrText string `json:"err_text,omitempty"` // the full real error text
+	GoPanic string `json:"go_panic,omitempty"` // a Go panic that escaped the embedding API (recovered by the harness)
+	FinalSP int    `json:"final_sp"`           // VerifSP after the run (hook)
 }
 
 // RenderObj is the typed rendering of a real object, comparable with gen.Render.
@@ -83,21 +83,15 @@ func ClassifyErr(msg string) string {
 	return "user:" + msg
 }
 
-// Run parses, compiles and runs src on a fresh VM with the default globals, capturing stdout.
-func Run(src string, o Opts) (res Result) {
-	if o.Timeout == 0 {
-		o.Timeout = 20 * time.Second
-	}
-	ctx, cancel := context.WithTimeout(context.Background(), o.Timeout)
-	defer cancel()
-	stdout := &OutFile{}
+// Compiled is the product of the front half of the pipeline.
+type Compiled struct {
+	Code  *compiler.Code
+	Stage string // "" when compiled; else the failing stage
+	Err   string
+}
+
+func newConfig(ctx context.Context, stdout *OutFile, o Opts) *risor.Config {
 	vos := ros.NewVirtualOS(ctx, ros.WithStdout(stdout))
-	defer func() {
-		if r := recover(); r != nil {
-			res.GoPanic = fmt.Sprintf("%v\n%s", r, debug.Stack())
-			res.Out = stdout.String()
-		}
-	}()
 	opts := []risor.Option{risor.WithOS(vos)}
 	if o.Concurrency {
 		opts = append(opts, risor.WithConcurrency())
@@ -105,22 +99,45 @@ func Run(src string, o Opts) (res Result) {
 	if len(o.Globals) > 0 {
 		opts = append(opts, risor.WithGlobals(o.Globals))
 	}
-	cfg := risor.NewConfig(opts...)
+	return risor.NewConfig(opts...)
+}
 
-	res.Stage = "parse"
+// Compile parses and compiles src with the default global names (plus o.Globals).
+func Compile(src string, o Opts) (c Compiled) {
+	ctx := context.Background()
+	cfg := newConfig(ctx, &OutFile{}, o)
+	c.Stage = "parse"
 	prog, err := parser.Parse(ctx, src)
 	if err != nil {
-		res.ErrText = err.Error()
-		res.Err = ClassifyErr(res.ErrText)
+		c.Err = err.Error()
 		return
 	}
-	res.Stage = "compile"
+	c.Stage = "compile"
 	code, err := compiler.Compile(prog, cfg.CompilerOpts()...)
 	if err != nil {
-		res.ErrText = err.Error()
-		res.Err = ClassifyErr(res.ErrText)
+		c.Err = err.Error()
 		return
 	}
+	c.Stage = ""
+	c.Code = code
+	return
+}
+
+// Exec runs compiled code on a fresh VM with fresh default globals, capturing stdout.
+func Exec(code *compiler.Code, o Opts) (res Result) {
+	if o.Timeout == 0 {
+		o.Timeout = 8 * time.Second
+	}
+	ctx, cancel := context.WithTimeout(context.Background(), o.Timeout)
+	defer cancel()
+	stdout := &OutFile{}
+	defer func() {
+		if r := recover(); r != nil {
+			res.GoPanic = fmt.Sprintf("%v\n%s", r, debug.Stack())
+			res.Out = stdout.String()
+		}
+	}()
+	cfg := newConfig(ctx, stdout, o)
 	res.Stage = "run"
 	machine := vm.New(code, cfg.VMOpts()...)
 	runErr := machine.Run(ctx)
@@ -150,6 +167,30 @@ func Run(src string, o Opts) (res Result) {
 		}
 	}
 	return
+}
+
+// Run parses, compiles and runs src on a fresh VM with the default globals, capturing stdout.
+func Run(src string, o Opts) (res Result) {
+	var c Compiled
+	func() {
+		defer func() {
+			if r := recover(); r != nil {
+				res.GoPanic = fmt.Sprintf("%v\n%s", r, debug.Stack())
+			}
+		}()
+		c = Compile(src, o)
+	}()
+	if res.GoPanic != "" {
+		res.Stage = "parse-or-compile"
+		return
+	}
+	if c.Code == nil {
+		res.Stage = c.Stage
+		res.ErrText = c.Err
+		res.Err = ClassifyErr(c.Err)
+		return
+	}
+	return Exec(c.Code, o)
 }
 
 // Diff compares a model outcome with a real result; "" means they agree.
